@@ -44,6 +44,8 @@ LamM(n, a) ==
     [] n = "cnt" -> MonadD("#", a)
     [] n = "half" -> DyadD(":%", a, I(2))
     [] n = "lt20" -> DyadD("<", a, I(20))
+    [] n = "pos" -> DyadD(">", a, I(0))
+    [] n = "sq1" -> DyadD("+", DyadD("*", a, a), I(1))
     [] n = "ix0" -> DyadD("@", a, I(0))
     [] n = "ix1" -> DyadD("@", a, I(1))
     [] n = "ixm" -> DyadD("*", DyadD("@", a, I(0)), DyadD("@", a, I(1)))
@@ -68,10 +70,11 @@ ConvScan(f, x, out, fuel) == IF fuel = 0 THEN <<Err("fuel")>>
                                   IF IsErr(y) THEN <<y>> ELSE IF Match(y, x) THEN out ELSE ConvScan(f, y, Append(out, y), fuel - 1)
 While(p, f, x, fuel) == IF fuel = 0 THEN Err("fuel")
                         ELSE LET c == Ap1F(p, x) IN
-                             IF IsErr(c) THEN c ELSE IF ~Truth(c) THEN x ELSE While(p, f, Ap1F(f, x), fuel - 1)
+                             IF IsErr(c) THEN c ELSE IF IsList(c) \/ IsStr(c) THEN Err("domain")   \* the test must yield an atom
+                             ELSE IF ~Truth(c) THEN x ELSE While(p, f, Ap1F(f, x), fuel - 1)
 WhileScan(p, f, x, out, fuel) == IF fuel = 0 THEN <<Err("fuel")>>
                                  ELSE LET c == Ap1F(p, x) IN
-                                      IF IsErr(c) THEN <<c>> ELSE IF ~Truth(c) THEN out
+                                      IF IsErr(c) THEN <<c>> ELSE IF IsList(c) \/ IsStr(c) THEN <<Err("domain")>> ELSE IF ~Truth(c) THEN out
                                       ELSE WhileScan(p, f, Ap1F(f, x), Append(out, x), fuel - 1)
 
 \* monadic use of a verb
